@@ -213,7 +213,11 @@ def _fillna_with_stairs(self, value):
     # fill with a defined stand-in first so that undefined regions of `value` cannot
     # leak into points where self is defined, then undefine where both are undefined
     result = self.fillna(0) + value.fillna(0) * isna
-    return result.mask(isna & value.isna())
+    result = result.mask(isna & value.isna())
+    if self._data is None and value._data is not None:
+        # the filler may drop out of the arithmetic entirely; its side still governs
+        result._closed = value._closed
+    return result
 
 
 # TODO: test
